@@ -2507,7 +2507,29 @@ func (ts *TokenStore) handleTidy(ctx context.Context, req *logical.Request, data
 					// found, it doesn't exist. Doing the following without locking
 					// since appropriate locks cannot be held with salted token IDs.
 					// Also perform deletion if the parent doesn't exist any more.
-					te, _ := ts.lookupInternal(quitCtx, child, true, true)
+					//
+					// The index entry of a child token living in another
+					// namespace carries that namespace's ID as suffix; such a
+					// child has to be looked up in its own namespace.
+					var te *logical.TokenEntry
+					saltedChild, childNSID := namespace.SplitIDFromString(child)
+					if childNSID == "" {
+						te, _ = ts.lookupInternal(quitCtx, saltedChild, true, true)
+					} else {
+						childNS, err := ts.core.NamespaceByID(quitCtx, childNSID)
+						if err != nil {
+							tidyErrors = multierror.Append(tidyErrors, fmt.Errorf("failed to get namespace of child token: %w", err))
+							continue
+						}
+						if childNS != nil {
+							if ts.core.NamespaceSealed(childNS) {
+								// No way to tell if the child still exists,
+								// leave its index entry alone
+								continue
+							}
+							te, _ = ts.lookupInternal(namespace.ContextWithNamespace(quitCtx, childNS), saltedChild, true, true)
+						}
+					}
 					// If the child entry is not nil, but the parent doesn't exist, then turn
 					// that child token into an orphan token. Theres no deletion in this case.
 					if te != nil && exists == nil {
